@@ -44,8 +44,9 @@ TCall(e) ==
     [] e.a.op = "open" ->
          Step(e.a) /\ e.r.pan = 0 /\ e.r.len = e.a.c
     [] e.a.op = "rd" ->
-         IF Known(e.a) THEN Step(e.a) /\ RdMatch(e.r, ReplyRd(e.a))
-         ELSE UStep(e.a, e.r)
+         /\ ~e.r.srcmut                      \* decoding leaves the bytes it decodes from alone
+         /\ IF Known(e.a) THEN Step(e.a) /\ RdMatch(e.r, ReplyRd(e.a))
+            ELSE UStep(e.a, e.r)
     [] OTHER -> FALSE
 
 Consume ==
